@@ -666,3 +666,55 @@ func paramOf(fn *ssa.Function, i int) ssa.Value {
 	}
 	return fn.Params[i]
 }
+
+
+// foldFormat gives the format of a fmt call with the constant string operands of %s / %v verbs written into it, and the
+// operands that remain: Fprintf(w, "%s: %d\r\n", "Content-Length", n) reads as ("Content-Length: %d\r\n", [n]).
+func (w *World) foldFormat(c ssa.CallInstruction) (string, []ssa.Value, bool) {
+	format, args, ok := w.fmtArgs(c)
+	if !ok {
+		return "", nil, false
+	}
+	fs, isC := constString(format)
+	if !isC {
+		return "", nil, false
+	}
+	var out strings.Builder
+	var rest []ssa.Value
+	ai := 0
+	for i := 0; i < len(fs); i++ {
+		if fs[i] != '%' {
+			out.WriteByte(fs[i])
+			continue
+		}
+		j := i + 1
+		for j < len(fs) && strings.IndexByte("+-# 0123456789.", fs[j]) >= 0 {
+			j++
+		}
+		if j >= len(fs) {
+			out.WriteString(fs[i:])
+			break
+		}
+		if fs[j] == '%' {
+			out.WriteString("%%")
+			i = j
+			continue
+		}
+		var arg ssa.Value
+		if ai < len(args) {
+			arg = args[ai]
+		}
+		ai++
+		if (fs[j] == 's' || fs[j] == 'v') && j == i+1 && arg != nil {
+			if k, isK := constString(arg); isK {
+				out.WriteString(strings.ReplaceAll(k, "%", "%%"))
+				i = j
+				continue
+			}
+		}
+		out.WriteString(fs[i : j+1])
+		rest = append(rest, arg)
+		i = j
+	}
+	return out.String(), rest, true
+}
